@@ -303,6 +303,39 @@ Theorem C01_gen_settings_default : forall attr, gen_Settings_get_atol = SsRet at
 Proof. intros attr E. injection E as <-. cbn. auto. Qed.
 End SettingsTie.
 
+(* ---------------------------------------------------------------- _generate_origin_obj / _generate_zero_obj of the four classes *)
+Section OriginTie.
+Context (F : OF).
+(* the regenerated origin / zero data ARE the model's (every index; x = any element of the POVM / instrument) *)
+Theorem C01_gen_origin_zero_data : forall (sd : F) (m x a b : nat),
+  (eval_arr1 sd m gen_State_origin a = state_origin sd a /\ eval_arr1 sd m gen_Povm_origin a = povm_origin sd m x a) /\
+  (eval_arr2 sd m gen_Gate_origin a b = @gate_origin F a b /\ eval_arr2 sd m gen_MProcess_origin a b = mprocess_origin m x a b) /\
+  (eval_arr1 sd m gen_State_zero a = @state_zero F a /\ eval_arr1 sd m gen_Povm_zero a = @povm_zero F x a) /\
+  (eval_arr2 sd m gen_Gate_zero a b = @gate_zero F a b /\ eval_arr2 sd m gen_MProcess_zero a b = @mprocess_zero F x a b).
+Proof. intros sd m x a b. split; [split; reflexivity|]. split; [split; reflexivity|]. split; split; reflexivity. Qed.
+(* one such array per element of the POVM / instrument, a single array for states and gates *)
+Theorem C01_gen_origin_zero_iteration :
+  (gen_State_origin_iter = "" /\ gen_State_zero_iter = "" /\ gen_Gate_origin_iter = "" /\ gen_Gate_zero_iter = "") /\
+  (In gen_Povm_origin_iter ["range(len(self.vecs))"; "self.vecs"] /\ In gen_Povm_zero_iter ["range(len(self.vecs))"; "self.vecs"]) /\
+  (In gen_MProcess_origin_iter ["range(len(self.hss))"; "self.hss"] /\ In gen_MProcess_zero_iter ["range(len(self.hss))"; "self.hss"]).
+Proof. split; [split; [reflexivity|split; [reflexivity|split; reflexivity]]|]. split; (split; cbn; auto). Qed.
+(* hence (Props C01_origin_objects_physical transported): the origin objects AS REGENERATED FROM THE SOURCE are physical, for every d, m,
+   every basis with B_0 = I/sd, sd*sd = d, every tolerance >= 0 *)
+Theorem C01_gen_origin_objects_physical : forall (st rtol : F) flag d (sd : F) B m aeq aineq,
+  (flag = false -> basis_orthonormal d B) -> basis_0th_identity d sd B -> cmul F sd sd = knat d -> kle F (c0 F) sd ->
+  (0 < d)%nat -> (0 < m)%nat ->
+  kle F (c0 F) (resolve_atol st aeq) -> kle F (c0 F) (resolve_atol st aineq) -> kle F (c0 F) rtol ->
+  state_is_physical st rtol d B (eval_arr1 sd m gen_State_origin) aeq aineq = true /\
+  povm_is_physical st rtol d B m (fun _ => eval_arr1 sd m gen_Povm_origin) aeq aineq = true /\
+  gate_is_physical st flag d B (eval_arr2 sd m gen_Gate_origin) aeq aineq = true /\
+  mprocess_is_physical st flag d B m (fun _ => eval_arr2 sd m gen_MProcess_origin) aeq aineq = true.
+Proof. intros st rtol flag d sd B m aeq aineq Ho H0 Hsd Hs Hd Hm Ha1 Ha2 Hr.
+  split; [exact (state_origin_physical F st rtol d sd B aeq aineq H0 Hsd Hd Ha1 Ha2 Hr)|].
+  split; [exact (povm_origin_physical F st rtol d sd B m aeq aineq H0 Hsd Hd Hm Ha1 Ha2 Hr)|].
+  split; [exact (gate_origin_physical F st flag d sd B aeq aineq Ho H0 Hsd Hs Hd Ha1 Ha2)|].
+  exact (mprocess_origin_physical F st flag d sd B m aeq aineq Ho H0 Hsd Hs Hd Hm Ha1 Ha2). Qed.
+End OriginTie.
+
 Print Assumptions C01_gen_state_is_physical.
 Print Assumptions C01_gen_state_subverdicts.
 Print Assumptions C01_gen_state_ctor.
@@ -315,3 +348,6 @@ Print Assumptions C01_gen_mprocess_ctor.
 Print Assumptions C01_gen_settings_set_then_get.
 Print Assumptions C01_gen_settings_guard_and_purity.
 Print Assumptions C01_gen_settings_default.
+Print Assumptions C01_gen_origin_zero_data.
+Print Assumptions C01_gen_origin_zero_iteration.
+Print Assumptions C01_gen_origin_objects_physical.
